@@ -68,7 +68,7 @@ class Fails:
     def __call__(self, sig, desc, replay):
         self.n += 1
         # systematic classes (one signature per species): the first three species of a class are reported, the rest counted
-        if sig.startswith(('C19:near-miss:', 'C19:pickle:', 'C19:copy:')):
+        if sig.startswith(('C19:near-miss:', 'C19:pickle:', 'C19:copy:', 'C19:lookup:result-changes-after-construction:')):
             g = sig.rsplit(':', 1)[0]
             seen = self.groups.setdefault(g, set())
             if sig not in seen and len(seen) >= 3:
@@ -127,7 +127,7 @@ def run(ctx):
     # ---- 2. T -----------------------------------------------------------------------------------------------------
     t_ok = False
     if info is not None:
-        t_ok = ctx.lean_check(['Cherab.Props.C19', 'Cherab.Props.C19Int'], 'Cherab/Audit/C19.lean')
+        t_ok = ctx.lean_check(['Cherab.Props.C19', 'Cherab.Props.C19Int', 'Cherab.Props.C19Hist'], 'Cherab/Audit/C19.lean')
         ctx.log('T: %d/%d obligations discharged' % (sum(1 for o in ctx.obligations if o[1]), len(ctx.obligations)))
 
     # ---- 3. the implementation ------------------------------------------------------------------------------------
@@ -158,6 +158,7 @@ def run(ctx):
     # ---- 4. lookups: S on every positive query, K on positive + negative queries ------------------------------------
     queries = lookup_queries(ctx, E, els, isos)
     s_lookups(ctx, fail, E, queries)
+    s_history(ctx, fail, E, els, isos)           # round 6: lookups -> construct colliding species -> the same lookups
     if drv is not None:
         k_lookups(ctx, drv, E, queries + negative_queries(ctx, E, els, isos))
 
@@ -173,6 +174,7 @@ def run(ctx):
     s_near_miss(ctx, fail, E, Line, species)
     s_copies(ctx, fail, E, Line, species)
     s_other_interpreter(ctx, fail, E, Line, species)
+    s_final_sweep(ctx, fail, E, queries)         # round 6: after every construction / copy / pickle of this run
     if drv is not None:
         k_eq_rows(ctx, drv, species)
         k_constructed(ctx, drv, E, Line, els, isos)
@@ -413,6 +415,130 @@ def s_lookups(ctx, fail, E, queries):
             fail('C19:%s:%s:%s' % (f, kind, want.name),
                  '%s(%r%s) returned %s, expected the %s object %r' % (f, v, '' if n is None else ', number=%r' % n, got, type(want).__name__, want.name),
                  dict(call=f, arg=qspec(v), number=n, expected=want.name, got=got))
+
+
+def history_idents(E, s):
+    """[(function, arg, number)]: every identifier form of the exported species `s` (one spelling each + two letter cases)"""
+    out = []
+    if type(s) is E.Isotope:
+        p = s.element
+        for v in (s.symbol, s.symbol.lower(), s.name, s.name.upper(), p.symbol + str(s.mass_number), p.name + str(s.mass_number), s):
+            out.append(('lookup_isotope', v, None))
+        for v in (p.symbol, p.name, p.atomic_number, str(p.atomic_number), p):
+            out.append(('lookup_isotope', v, s.mass_number))
+    else:
+        for v in (s.symbol, s.symbol.upper(), s.symbol.lower(), s.name, s.name.title(), s.atomic_number, str(s.atomic_number), s):
+            out.append(('lookup_element', v, None))
+    return out
+
+
+def history_collaborators(E, s):
+    """[(label, thunk)]: public-constructor calls whose name / symbol / number / element+mass-number key collides with `s`.
+    Built from the public attributes of the exported object only; none of them may change what any lookup returns."""
+    iso = type(s) is E.Isotope
+    w = s.atomic_weight
+    out = []
+    if iso:
+        p = s.element
+        a = s.mass_number
+        out += [('equal-value-isotope', lambda: E.Isotope(s.name, s.symbol, p, a, w)),
+                ('same-identifiers-other-weight', lambda: E.Isotope(s.name, s.symbol, p, a, float(round(w)))),
+                ('same-name-only', lambda: E.Isotope(s.name, 'Qq%d' % a, p, a + 400, w)),
+                ('same-symbol-only', lambda: E.Isotope('userspecies', s.symbol, p, a + 400, w)),
+                ('same-element+mass-number-only', lambda: E.Isotope('userspecies', 'Qq', p, a, w)),
+                ('same-mass-number-on-element-copy', lambda: E.Isotope('userspecies', 'Qq', E.Element(p.name, p.symbol, p.atomic_number, p.atomic_weight), a, w)),
+                ('lower-cased-identifiers', lambda: E.Isotope(s.name.lower(), s.symbol.lower(), p, a, w)),
+                ('element-with-isotope-identifiers', lambda: E.Element(s.name, s.symbol, s.atomic_number, w)),
+                ('element-named-symbol+A', lambda: E.Element(p.symbol + str(a), p.name + str(a), s.atomic_number, w))]
+    else:
+        z = s.atomic_number
+        out += [('equal-value-element', lambda: E.Element(s.name, s.symbol, z, w)),
+                ('same-identifiers-other-weight', lambda: E.Element(s.name, s.symbol, z, float(round(w)))),
+                ('same-name-only', lambda: E.Element(s.name, 'Qq', z + 400, w)),
+                ('same-symbol-only', lambda: E.Element('userspecies', s.symbol, z + 400, w)),
+                ('same-atomic-number-only', lambda: E.Element('userspecies', 'Qq', z, w)),
+                ('lower-cased-identifiers', lambda: E.Element(s.name.lower(), s.symbol.lower(), z, w)),
+                ('name-is-the-atomic-number', lambda: E.Element(str(z), str(z), z + 400, w)),
+                ('isotope-with-element-identifiers', lambda: E.Isotope(s.name, s.symbol, s, max(z, 1), w)),
+                ('isotope-on-it', lambda: E.Isotope('userspecies', 'Qq', s, z + 400, w))]
+    out += [('copy', lambda: copy.copy(s)), ('deepcopy', lambda: copy.deepcopy(s)),
+            ('pickle-roundtrip', lambda: pickle.loads(pickle.dumps(s)))]
+    return out
+
+
+def s_history(ctx, fail, E, els, isos):
+    """History stream (round 6): "constructing objects must not change what the lookups return".
+    For every exported species X (the module global, never read back from the indices):
+        lookups by every identifier of X  ->  one public-constructor call whose keys collide with X  ->  the same lookups,
+    repeated for each collaborator kind, the constructed objects kept alive; then they are dropped, gc runs, and the
+    lookups are made once more.  Oracle (model-free): each lookup returns the *identical* exported object, every time."""
+    import gc
+    keep = []
+    for x in list(els) + list(isos):
+        idents = history_idents(E, x)
+
+        def look(stage, label, made):
+            for f, v, n in idents:
+                st, res = _call_lookup(E, f, v, n)
+                ctx.count('S:history:%s' % stage)
+                ctx.case(key=('history', f, v if isinstance(v, (str, int)) else ('obj', v.name), n, label))
+                if st != 'ok' or res is not x:
+                    got = ('%s: %s' % (st, res)) if st != 'ok' else '%r with atomic_weight %r, which is not the exported object (it is the object just constructed: %s)' % (
+                        res, getattr(res, 'atomic_weight', None), res is made)
+                    fail('C19:lookup:result-changes-after-construction:%s:%s' % (label, x.name),
+                         'history: %s(%r%s) returned the exported %s %r; then %s was constructed (%s); then the same call returned %s'
+                         % (f, v, '' if n is None else ', number=%r' % n, type(x).__name__, x.name, made_repr(made), label, got),
+                         dict(call=f, arg=qspec(v), number=n, expected=x.name, got=got, history=['lookup', 'construct:' + label, 'lookup'],
+                              constructed=made_repr(made)))
+                    return False
+            return True
+        if not look('before', 'before-any-construction', None):
+            continue                      # already wrong before the history starts: reported by s_lookups under its own signature
+        for label, thunk in history_collaborators(E, x):
+            st, made = call(thunk)
+            if st != 'ok':
+                ctx.count('S:history:constructor-refused:%s' % label)      # e.g. a validation added to the constructor: not a history fault
+                continue
+            keep.append(made)
+            ctx.count('S:history:constructed')
+            if not look('after', label, made):
+                break
+    n = len(keep)
+    del keep[:]
+    gc.collect()
+    for x in list(els) + list(isos):
+        for f, v, n_ in history_idents(E, x):
+            st, res = _call_lookup(E, f, v, n_)
+            ctx.count('S:history:after-gc')
+            if st != 'ok' or res is not x:
+                got = ('%s: %s' % (st, res)) if st != 'ok' else repr(res)
+                fail('C19:lookup:result-changes-after-construction:collaborators-dropped+gc:%s' % x.name,
+                     'history: %d colliding species constructed, dropped, gc.collect(); then %s(%r%s) returned %s, expected the exported %s %r'
+                     % (n, f, v, '' if n_ is None else ', number=%r' % n_, got, type(x).__name__, x.name),
+                     dict(call=f, arg=qspec(v), number=n_, expected=x.name, got=got, history=['construct*', 'del', 'gc', 'lookup']))
+                break
+
+
+def made_repr(o):
+    if o is None:
+        return 'nothing'
+    if hasattr(o, 'mass_number'):
+        return 'Isotope(%r, %r, <%s>, %r, %r)' % (o.name, o.symbol, o.element.name, o.mass_number, o.atomic_weight)
+    return 'Element(%r, %r, %r, %r)' % (o.name, o.symbol, o.atomic_number, o.atomic_weight)
+
+
+def s_final_sweep(ctx, fail, E, queries):
+    """every positive query of the run once more, after all constructions, copies, pickles and Lines of the other streams"""
+    for f, v, n, want, kind in queries:
+        st, res = _call_lookup(E, f, v, n)
+        ctx.count('S:final-sweep')
+        if st != 'ok' or res is not want:
+            got = ('%s: %s' % (st, res)) if st != 'ok' else repr(res)
+            fail('C19:lookup:result-changes-after-construction:final-sweep:%s' % want.name,
+                 'at the end of the run (after the species / Line constructions, copies and pickles of the other streams) %s(%r%s) '
+                 'returned %s, expected the exported %s %r (it did at the start of the run)'
+                 % (f, v, '' if n is None else ', number=%r' % n, got, type(want).__name__, want.name),
+                 dict(call=f, arg=qspec(v), number=n, expected=want.name, got=got, history=['lookup', 'all other streams', 'lookup']))
 
 
 def k_lookups(ctx, drv, E, queries):
